@@ -14,7 +14,7 @@ from bounded.util import Collector, classify_exception
 NATOMS = 3
 OPTION_SETS = [dict(), dict(keep_order=True), dict(keep_duplicates=True), dict(keep_all=True),
                dict(avoid_name_clash=True), dict(max_arity=2), dict(auto_compact=False),
-               dict(keep_order=True, keep_all=True), dict(avoid_name_clash=True, keep_duplicates=True, max_arity=2)]
+               dict(keep_order=True, keep_all=True), dict(avoid_name_clash=True, keep_duplicates=True, max_arity=2), dict(max_arity=3)]
 
 
 def gen_sequence(rng, length):
@@ -38,7 +38,8 @@ def gen_sequence(rng, length):
         elif k < 0.65:
             seq.append(("or", [ref() for _ in range(rng.randint(1, 3))], True, rng.random() < 0.3))
         elif k < 0.8:
-            seq.append(("or", [ref() for _ in range(rng.randint(1, 2))], False, False))
+            # (also created over-full w.r.t. max_arity, which the engine never does but the interface allows)
+            seq.append(("or", [ref() for _ in range(rng.randint(1, 4))], False, False))
             mutable.append(nvals)
         elif k < 0.95 and mutable:
             m = rng.choice(mutable)
